@@ -137,7 +137,7 @@ def run(ctx):
     for i_ in range(2):
         sessions.run_sessions(ctx, random.Random(ctx.seed * 2 + 77 + i_), 120 if ctx.quick else 2500, ('kev', 'fkev', 'tr'),
                               lambda r, world=None: _c13.gen_dump(r, world=world, orphans=0.1, samples=0.1),
-                              _c13.gen_cfg, 'ses%d_' % i_)
+                              _c13.gen_cfg if i_ % 2 else sessions.cfg_light, 'ses%d_' % i_)
     r3 = ctx.expect_ok(run_tlc('Truncation', CFG % ('TRUE', 'v3'), ctx.workdir, name='trunc_v3', timeout=3600,
                                args=['-coverage', '1']))
     r2 = ctx.expect_ok(run_tlc('Truncation', CFG % ('TRUE', 'v2'), ctx.workdir, name='trunc_v2', timeout=3600,
